@@ -45,6 +45,8 @@ def _k1_cases(tier):
         for flt in (["none", "white-A", "black-A"] if tier == "quick" else sorted(FILTERS)):
             for nper in ([0, 1] if tier == "quick" else [0, 1, 2]):
                 out.append((n, flt, nper))
+    if tier == "quick":
+        out.append((1, "none", 2))        # two excluded periods (touching, nested, ...)
     return out
 
 
